@@ -26,7 +26,7 @@ META = {
         "MachineMixin machines use default options (the mixin passes none)",
     ],
     "must_observe": ["events_executed", "styles_used", "sweep_names", "allowed_order_compared"],
-    "shard_timeout": {"quick": 400, "thorough": 3400},
+    "shard_timeout": {"quick": 900, "thorough": 3400},
 }
 
 PROFILE = {"n_states": (2, 5), "n_events": (2, 4), "extra_transitions": (1, 6), "p_multi_event": 0.3,
